@@ -4,15 +4,22 @@ SOURCES = ['repo:src/InputFunctions/DomainGeometry/*.cpp', 'repo:src/InputFuncti
            'repo:src/InputFunctions/BoundaryConditions/polarR6_Boundary_Ci*.cpp', 'repo:src/InputFunctions/BoundaryConditions/polarR6_Boundary_Cz*.cpp',
            'repo:src/InputFunctions/BoundaryConditions/polarR6_Boundary_S*.cpp',
            'repo:src/InputFunctions/ExactSolution/cartesianR*.cpp', 'repo:src/InputFunctions/ExactSolution/polarR6_Ci*.cpp',
-           'repo:src/InputFunctions/ExactSolution/polarR6_Cz*.cpp', 'repo:src/InputFunctions/ExactSolution/polarR6_S*.cpp', 'harness/C19.cpp']
+           'repo:src/InputFunctions/ExactSolution/polarR6_Cz*.cpp', 'repo:src/InputFunctions/ExactSolution/polarR6_S*.cpp',
+           'repo:src/InputFunctions/SourceTerms/*_Poisson_CircularGeometry.cpp', 'repo:src/InputFunctions/SourceTerms/*_Poisson_ShafranovGeometry.cpp', 'harness/C19.cpp']
 FLAGS = ['-DNDEBUG']
 ASSUMPTIONS = [
     'decided: (1) the four Jacobian functions of Circular, Shafranov and Czarny geometry are the formal partial derivatives of Fx, Fy at every (r, theta), with sin(theta), cos(theta) as symbols s, c (s^2 + c^2 = 1, ds/dtheta = c, dc/dtheta = -s), parameters at their defaults and symbolic in (0,1) x (0,inf); Culham: the theta-derivatives at a concrete radius (its radial profiles are tabulated); (2) beta * alpha = 1 and alpha > 0 for the three gyro profiles for every 0 < r <= Rmax; (3) u_D and u_D_Interior equal the exact solution at every point, for the 9 (problem, geometry) pairs',
-    'NOT decided: source term = -div(alpha grad u) + beta u for the 64 source-term classes (expressions of 1-67 kB; not attempted here), the radial derivatives of the Culham mapping (tabulated ODE solution), the selection tables of select_test_case.cpp',
+    'source term = -div(alpha grad u) + beta u in the metric of the mapping: decided for PolarR6 / Poisson / Circular only (formal second derivatives of the exact solution, z3); NOT decided for the other 63 classes (Cartesian problems: compile-time rounded powers of pi make exact equality false by ~1e-16; larger classes: solver time), the radial derivatives of the Culham mapping (tabulated ODE solution), the selection tables of select_test_case.cpp',
     'formal differentiation is done by the encoder (chain rule through sqrt, exp, atan, tanh, sin, cos, pow); the solver decides the resulting identities over the atoms with sqrt axioms t >= 0, t^2 = x, Pythagorean identities for every sin/cos pair and exp(a) exp(-a) = 1 where both occur; exact real arithmetic',
 ]
 OUTSIDE = ['the source-term identities', 'Culham r-derivatives', 'RefinedRadius problem classes']
 BOUNDS = {'quick': 'Jacobians: 4 geometries (default and symbolic parameters); 3 gyro profiles; 9 boundary/exact-solution pairs', 'thorough': 'same'}
+
+
+# source-term identity: only the class z3 decides exactly.  CartesianR2/R6 (both geometries): the shipped formulas contain compile-time
+# rounded powers of pi (8.0 * (M_PI * M_PI) is one double), so exact equality with the formal derivative fails by ~1e-16 relative
+# (solver models do not reproduce natively: treated as inconclusive, not as findings); PolarR6 on Shafranov: timeout at 240 s.
+SOURCE_CLASSES = ((2, 0),)
 
 
 def jobs(tier, seed):
@@ -27,12 +34,17 @@ def jobs(tier, seed):
     for pr, pn in enumerate(('CartesianR2', 'CartesianR6', 'PolarR6')):
         for g in range(3):
             J.append(dict(entry='h_boundary', args=[pr, g], label=f'boundary {pn} {GN[g]}', cls='boundary', reach=['classes-built'], eager=False, diff=True, witness=False, cap_quick=240))
+    PN = ('CartesianR2', 'CartesianR6', 'PolarR6')
+    for (pr, g) in SOURCE_CLASSES:
+        if True:
+            J.append(dict(entry='h_source_term', args=[pr, g], label=f'source term {PN[pr]} Poisson {GN[g]}', cls='source-term', reach=['classes-built'], eager=False, diff=True, witness=False,
+                          cap_quick=240, cap_thorough=1800))
     return J
 
 
 LEVEL_TEXT = ('Bounded symbolic verification of the input-function classes: each shipped geometry / profile / boundary / exact-solution class is executed symbolically at an arbitrary point '
               '(r, theta, sin theta, cos theta symbolic); the encoder differentiates the mapping formally and z3 proves the Jacobian functions equal those derivatives, beta = 1/alpha '
-              'for the gyro profiles and boundary data = exact solution, for ALL points (and parameter values). The source-term identity is not decided.')
-LEVEL_NOTE = 'partial claim: Jacobians, beta = 1/alpha, boundary data; source terms (-div(alpha grad u) + beta u) NOT decided; Culham only in theta at a concrete radius'
+              'for the gyro profiles and boundary data = exact solution, for ALL points (and parameter values). The source-term identity is decided for one class only (PolarR6/Poisson/Circular).')
+LEVEL_NOTE = 'partial claim: Jacobians, beta = 1/alpha, boundary data; source-term identity only for PolarR6/Poisson/Circular; Culham only in theta at a concrete radius'
 TECHNIQUE = 'symbolic execution of LLVM IR (llsym) + formal differentiation of the term DAG + SMT (z3 QF_NRA with sqrt / trigonometric / exponential axioms)'
 DESIGN_REF = 'DESIGN.md section 6/C19'
